@@ -246,8 +246,28 @@ func sanitize(s string) string {
 	return b.String()
 }
 
-func shortTypeName(t types.Type) string {
-	return types.TypeString(t, func(p *types.Package) string { return p.Name() })
+func shortTypeName(t types.Type) string { return canonType(t, func(p *types.Package) string { return p.Name() }) }
+
+// canonType prints a type with every alias resolved (so map[string]types.Object and map[string]any coincide)
+func canonType(t types.Type, q types.Qualifier) string {
+	t = types.Unalias(t)
+	switch tt := t.(type) {
+	case *types.Map:
+		return "map[" + canonType(tt.Key(), q) + "]" + canonType(tt.Elem(), q)
+	case *types.Slice:
+		return "[]" + canonType(tt.Elem(), q)
+	case *types.Array:
+		return fmt.Sprintf("[%d]%s", tt.Len(), canonType(tt.Elem(), q))
+	case *types.Pointer:
+		return "*" + canonType(tt.Elem(), q)
+	case *types.Chan:
+		return "chan " + canonType(tt.Elem(), q)
+	case *types.Interface:
+		if tt.NumMethods() == 0 {
+			return "any"
+		}
+	}
+	return types.TypeString(t, q)
 }
 
 func (u *Universe) Fresh(prefix string, s *Sort) Term {
@@ -282,7 +302,7 @@ func (u *Universe) DeclareFun(name string, args []*Sort, res *Sort) *FunSig {
 // SortOf maps a Go type to its sort, declaring what is needed.
 func (u *Universe) SortOf(t types.Type) *Sort {
 	t = types.Unalias(t)
-	key := types.TypeString(t, nil)
+	key := canonType(t, nil)
 	if s, ok := u.sorts[key]; ok {
 		return s
 	}
@@ -358,9 +378,12 @@ func (u *Universe) opaque(name string, t types.Type) *Sort {
 var opaqueStructPkgs = map[string]bool{"time": true, "regexp": true, "bytes": true, "encoding/json": true, "os": true,
 	"github.com/open-policy-agent/opa/rego": true, "github.com/open-policy-agent/opa/ast": true, "github.com/piprate/json-gold/ld": true, "context": true, "sync": true}
 
+// dependency structs whose fields the repository reads directly
+var transparentStructs = map[string]bool{"rego.Result": true, "rego.ExpressionValue": true}
+
 func (u *Universe) structSort(t types.Type, st *types.Struct) *Sort {
 	name := "S_" + sanitize(shortTypeName(t))
-	if n, ok := t.(*types.Named); ok && n.Obj().Pkg() != nil && opaqueStructPkgs[n.Obj().Pkg().Path()] {
+	if n, ok := t.(*types.Named); ok && n.Obj().Pkg() != nil && opaqueStructPkgs[n.Obj().Pkg().Path()] && !transparentStructs[n.Obj().Pkg().Name()+"."+n.Obj().Name()] {
 		return u.opaque("T_"+sanitize(shortTypeName(t)), t)
 	}
 	if s, ok := u.byName[name]; ok {
@@ -368,7 +391,7 @@ func (u *Universe) structSort(t types.Type, st *types.Struct) *Sort {
 	}
 	s := &Sort{Name: name, Kind: KStruct, Go: t}
 	u.byName[name] = s
-	u.sorts[types.TypeString(t, nil)] = s // recursion guard (recursive structs only via pointers/slices/interfaces)
+	u.sorts[canonType(t, nil)] = s // recursion guard (recursive structs only via pointers/slices/interfaces)
 	for i := 0; i < st.NumFields(); i++ {
 		f := st.Field(i)
 		fs := u.SortOf(f.Type())
@@ -481,7 +504,7 @@ func (u *Universe) FieldSet(x Term, f *Field, v Term) Term {
 
 // Interface values --------------------------------------------------------------------------
 
-func typeKey(t types.Type) string { return types.TypeString(types.Unalias(t), nil) }
+func typeKey(t types.Type) string { return canonType(t, nil) }
 
 func (u *Universe) Tag(t types.Type) int {
 	k := typeKey(t)
